@@ -114,6 +114,11 @@ def expr(e):
 # translation targets (filled by generate()); methods are registered as ".name" with self first
 CALLABLE = {}
 CALLS_SEEN = []
+# functions outside the translated subset that a body may call: they stay oracles ([ocall] with a hypothesis in
+# the theorem, recorded in the trusted base), name -> parameter names
+EXTERNAL = {
+    'shrink_to_fit': (['context', 'box', 'available_content_width'], {}),
+}
 
 
 def call(e):
@@ -123,9 +128,12 @@ def call(e):
         name, args = '.' + e.func.attr, [e.func.value] + list(e.args)
     else:
         raise Unsupported(ast.dump(e)[:200])
-    if name not in CALLABLE:
+    if name in CALLABLE:
+        params, defaults = CALLABLE[name]
+    elif name in EXTERNAL:
+        params, defaults = EXTERNAL[name]
+    else:
         raise Unsupported('call of %s (not a translation target)' % name)
-    params, defaults = CALLABLE[name]
     if any(isinstance(a, ast.Starred) for a in args) or any(k.arg is None for k in e.keywords):
         raise Unsupported('star arguments in call of %s' % name)
     if len(args) > len(params):
@@ -344,6 +352,10 @@ TARGETS = {
         ('fun', 'contain_constraint_image_sizing', 'contain_constraint_image_sizing', {}),
         ('fun', 'cover_constraint_image_sizing', 'cover_constraint_image_sizing', {}),
         ('fun', 'default_image_sizing', 'default_image_sizing', {}),
+    ]),
+    'GenAbsolute': ('weasyprint/layout/absolute.py', [
+        ('fun', 'absolute_width', 'absolute_width', {'callable': False}),
+        ('fun', 'absolute_height', 'absolute_height', {'callable': False}),
     ]),
     'GenCss': ('weasyprint/css/__init__.py', [
         ('fun', 'declaration_precedence', 'declaration_precedence', {}),
